@@ -65,12 +65,9 @@ func init() {
 			*p = b
 			return tuple{len(bs), iface{}}
 		case symv:
-			// ASCII only
-			if !X.decide(BVCmp("bvult", r.t, BVConst(0x80, 32))) {
-				panic(abortPath{"unsupported: WriteRune of non-ASCII symbolic rune"})
-			}
-			*p = append(b, mkScalar(Resize(r.t, 8, false), types.Uint8))
-			return tuple{1, iface{}}
+			bs := symRuneBytes(r)
+			*p = append(b, bs...)
+			return tuple{len(bs), iface{}}
 		}
 		panic("WriteRune: bad arg")
 	}
